@@ -2,7 +2,7 @@
 from __future__ import annotations
 import z3
 from .sym import zint, zbool, fresh, I
-from .interp import Unsupported, PyRaise, PyExcVal, AstFunc, Env
+from .interp import Unsupported, PyRaise, PyExcVal, AstFunc, Env, PathAbort
 from .heap import snapshot, havoc_inplace, fresh_like
 from . import sym
 
@@ -113,6 +113,8 @@ def apply_to_params(ip, c, params):
     for label, cond in post:
         if not label.startswith('!'):      # '!' clauses are obligations of the callee only, never assumed
             ctx.assume(cond)
+    if spec is None and not ctx.ghost.get('speculating', 0) and not ctx.feasible():
+        raise PathAbort('infeasible')      # the chosen outcome contradicts the callee's postcondition
     if raised is not None:
         raise raised
     return result
